@@ -107,12 +107,27 @@ Definition oracle_c03 (s : osel) (p : list byte) (sched : list bool) (out : val)
       let exhausted := existsb (fun c => is_vn c) cvals in
       let sep := match s with OU => usep_s | OW => s_wsep (s_norm p) end in
       let gap_ok := if exhausted then gaps_ok sep p all_sl O else true in
+      (* 6. what the iterator itself reports after every step: its path view is the remainder; it keeps the
+            variant; at Unix it has a root / is absolute exactly when the remainder, read as a path, is rooted *)
+      let its := map (fun st => match vargs "st" st with Some l => vnth l 3 | None => VC "bad" [] end) steps in
+      let state_ok :=
+        forallb (fun ri =>
+                   match vargs "t" (snd ri), fst ri with
+                   | Some [VBool hr; VBool ab; VB pv; var], VB rem =>
+                       beq_list pv rem
+                       && (match var with VN => true | VC t [] => tag_is t (match s with OU => "tu" | OW => "tw" end) | _ => false end)
+                       && (match s with
+                           | OU => let r := match ospec s rem with WC Root :: _ => true | _ => false end in Bool.eqb hr r && Bool.eqb ab r
+                           | OW => true
+                           end)
+                   | _, _ => false
+                   end) (combine rems its) in
       (* 5. the byte-slice iterator yields the bytes of the same components and the same remainders *)
       let iter_ok :=
         val_eqb (VL isteps)
                 (VL (map (fun cr => vpair (match vsome (fst cr) with Some c => VSome (VB (comp_bytes_enc s c)) | None => VN end) (snd cr))
                          (combine cvals rems))) in
-      ob (seq_ok && slice_ok && order_ok && gap_ok && iter_ok)
+      ob (seq_ok && slice_ok && order_ok && gap_ok && iter_ok && state_ok)
   | _ => fail
   end.
 
